@@ -16,7 +16,9 @@ CFG = dict(
     engines=[dict(harness="topics", driver="m_topics", n_quick=30000, n_thorough=1500000, thorough_seeds=4, n_search=300000)],
     rule="seeded generator over keys (len 0..60, edge bytes), Go strings (hex/non-hex/0x), payloads, ids, signatures (0..600 bytes), "
          "subnet vectors (len 0..200, values 0/1/other); each op is run on the real function and on the Lean model; a case is "
-         "distinct+non-trivial per (op kind, length class, outcome class) key computed by the harness",
+         "distinct+non-trivial per (op kind, length class, outcome class) key computed by the harness; `vstart` drives the real "
+         "validator.Validator.Start (production subscription path: NewValidator + duty runner + real p2pNetwork.Subscribe) and the oracle demands "
+         "that the topics it subscribes equal the topics the real Broadcast publishes on for that validator and role",
     trusted_base=["model of encoding/hex, strconv.ParseUint, strings.Replace, fmt %d, go-bitfield Bitvector128 (exercised by the differential run, not verified)",
                   "topicsCtrl applies GetTopicFullName to the name it is handed (regenerated call-site fact, harness applies the real function)"],
     assumptions=["libp2p pubsub delivers on the topic name it is given"],
